@@ -86,6 +86,9 @@ def build(seed: int, pid: str, ncfg: int) -> Tuple[Dict[str, Any], List[Dict[str
         geo["retry"] = True
         if geo.get("late_chops") and rs.sub("retry", "fix").chance(0.6):
             geo["late_fix"] = True
+            # (that correction lives on the first Mesh's blocks, not on the operations: a second Mesh object
+            # given the same operations is under-specified again, so no second write through one)
+            geo["rewrite_remesh"] = False
     programs = [P.make_program(geo, h64(seed, "cfg", c) % (1 << 31), identity=(c == 0)) for c in range(ncfg)]
     return geo, programs
 
